@@ -627,7 +627,7 @@ func ruleIDGenerator(r *Run) {
 				if se, ok := ast.Unparen(recvExpr(call)).(*ast.SelectorExpr); ok {
 					if sel, ok := holder.Info().Selections[se]; ok && sel.Kind() == types.FieldVal {
 						if nt, ok := derefNamedT(sel.Recv()); ok {
-							key = nt.Obj().Name() + "." + sel.Obj().Name()
+							key = r.P.OwnerName(nt) + "." + sel.Obj().Name()
 						}
 					}
 				}
@@ -1461,14 +1461,23 @@ func ruleRegistry(r *Run) {
 				lit := r.P.compositeOf(fn, ev.Results[0])
 				ok := lit != nil
 				if ok {
+					fieldCanon := func(f string) string {
+						v, vfn, _ := r.P.litFieldDeep(fn, lit, f, 0)
+						return r.P.Canon(vfn, v)
+					}
+					unset := func(f string) bool {
+						v, _, resolved := r.P.litFieldDeep(fn, lit, f, 0)
+						return v == nil && resolved
+					}
 					for _, f := range []string{"participants", "entities", "moduleStates", "frameHandlers"} {
-						if !strings.HasPrefix(r.P.Canon(fn, litField(lit, f)), "make(") {
+						if !strings.HasPrefix(fieldCanon(f), "make(") {
 							ok = false
 						}
 					}
-					ok = ok && r.P.Canon(fn, litField(lit, "ID")) == "param:#0" && strings.Contains(r.P.Canon(fn, litField(lit, "SessionUUID")), "call:uuid.New()") &&
-						(r.P.Canon(fn, litField(lit, "entityComponents")) == "call:models.newEntityComponentStore()" || strings.HasPrefix(r.P.Canon(fn, litField(lit, "entityComponents")), "&lit:models.EntityComponentStore@")) &&
-						litField(lit, "participantIDs") == nil && litField(lit, "entityIDs") == nil
+					ec := fieldCanon("entityComponents")
+					ok = ok && fieldCanon("ID") == "param:#0" && strings.Contains(fieldCanon("SessionUUID"), "call:uuid.New()") &&
+						(ec == "call:models.newEntityComponentStore()" || strings.HasPrefix(ec, "&lit:models.EntityComponentStore@")) &&
+						unset("participantIDs") && unset("entityIDs")
 				}
 				r.CheckT("E7", fn.Name+":fresh", ok, fn.Body.Pos(), &path, "a new session starts with empty collections, its own component store and id generators, and a new UUID (nothing carried over from an earlier session with the same id)")
 			}
@@ -1484,21 +1493,29 @@ func ruleFramePair(r *Run) {
 	}
 	// NewSession: stop channel has room for the one stop signal
 	if fn := r.modelFunc("models.NewSession"); fn != nil {
-		ok := false
-		ast.Inspect(fn.Body, func(n ast.Node) bool {
-			kv, isKV := n.(*ast.KeyValueExpr)
-			if !isKV {
-				return true
-			}
-			if id, isID := kv.Key.(*ast.Ident); isID && id.Name == "closeFrameChan" {
-				if call, isCall := ast.Unparen(kv.Value).(*ast.CallExpr); isCall && len(call.Args) == 2 {
-					if c, isC := intConstVal(fn.Info(), call.Args[1]); isC && c >= 1 {
-						ok = true
+		ok := true
+		n := 0
+		for _, path := range r.Paths(fn) {
+			r.at(&path)
+			for _, ev := range path.Events {
+				if ev.Kind != EvReturn || ev.Depth != 0 || len(ev.Results) != 1 {
+					continue
+				}
+				n++
+				good := false
+				if lit := r.P.compositeOf(fn, ev.Results[0]); lit != nil {
+					if v, vfn, _ := r.P.litFieldDeep(fn, lit, "closeFrameChan", 0); v != nil {
+						if call, isCall := ast.Unparen(v).(*ast.CallExpr); isCall && len(call.Args) == 2 {
+							if c, isC := intConstVal(vfn.Info(), call.Args[1]); isC && c >= 1 {
+								good = true
+							}
+						}
 					}
 				}
+				ok = ok && good
 			}
-			return true
-		})
+		}
+		ok = ok && n > 0
 		r.Check("E6", fn.Name+":stop-channel-buffered", ok, fn.Body.Pos(), "the frame worker's stop channel can hold the one stop signal even when the worker is busy or has not started")
 	}
 	// Close: under Once, stop the ticker and send the signal (plain send: never dropped)
